@@ -11,10 +11,17 @@ proved in C11, `compactSub_agree`; it stays a hypothesis here because the declar
 `sys_platform` clause are arbitrary texts) and to the reference value of the `sys_platform` text.  The printed line is the base
 requirement followed by ` ; ` and the marker's text (`requires_dist_line_shape`); that this text has the marker's truth
 for the reference is C13's print/parse theorem and enters `requiresDist_faithful_partial` as the named hypothesis
-`PrintFaithful`; the version part is C15's.  Selection (`no_nonoptional_dropped`, `empty_marker_never_unconditional`),
+`PrintFaithful`; ON C13's FULL COMPARISON-OPERATOR DOMAIN that hypothesis is discharged (`printFaithful_domain`:
+C13 `print_parse_full` composed with C06 `parse_eval_agree`), giving `requiresDist_faithful_domain` with no hypothesis
+about printing or parsing — what remains there is the leaf specification for `CompLeaf E` (C07's obligation on
+`_merge_single_markers`) and domain conditions on the declared texts and on the printed tree (`SynInDomain`).  The
+version part is C15's (used as proved in C10's `dep_roundtrip_registry_identical`).  Selection (`no_nonoptional_dropped`, `empty_marker_never_unconditional`),
 Provides-Extra and the structure of Requires-Python are proved outright.
 -/
 import PoetryVerif.Proofs.Dep02
+import PoetryVerif.Proofs.Proj621
+import PoetryVerif.Props.C06
+import PoetryVerif.Props.C13
 
 set_option linter.unusedSimpArgs false
 set_option linter.unusedVariables false
@@ -124,6 +131,68 @@ theorem requiresDist_faithful_partial (S : LeafSpec ev G) (hC : CompactAgree E e
   refine ⟨(requires_dist_line_shape d base hb hi hne).2 hany t ex ht hx, ?_⟩
   rw [hP t ht, (dependency_marker_faithful S hC D X Y Z hE bM bPy bPl d hM hPy hPl h).2]
 
+/-- **C13's print/parse fact, discharged on its domain**: for a marker of the full comparison-operator domain
+(`FullInvLeaf E`) whose printed tree lies in C06's proved domain on `E` (`SynInDomain`), `str(marker)` has for the
+PEP 508 reference exactly the value `validate` gives the marker — C13 `print_parse_full` composed with C06
+`parse_eval_agree`; no hypothesis about printing or parsing remains -/
+theorem printFaithful_domain {ex : List String} (hX : E.extras = some ex) {X Y Z : Nat} (hE : EnvPy E X Y Z)
+    {m : M} {syn : Syn} (hg : M.Good (FullInvLeaf E) m) (hsyn : M.toSyn m = some syn) (hdom : C06.SynInDomain E syn) :
+    PrintFaithful E (leafEval E) m := by
+  intro t ht
+  obtain ⟨s, h1, h2, m', h3, _, h5⟩ := C13.print_parse_full hX hE hg hsyn
+  rw [ht] at h1
+  injection h1 with h1
+  subst h1
+  obtain ⟨m'', b, k1, _, k3, k4⟩ := C06.parse_eval_agree E t syn h2 hdom
+  rw [h3] at k1
+  injection k1 with k1
+  subst k1
+  rw [h5] at k3
+  injection k3 with k3
+  have hne : t.isEmpty = false := by
+    cases hh : t.isEmpty with
+    | false => rfl
+    | true =>
+      have : t = "" := by simpa [String.isEmpty_iff] using hh
+      rw [this, parseText_empty] at h2; cases h2
+  simp [refEval, hne, h2, k4, k3]
+
+/-- non-vacuity: `python_version >= "3.8"` on CPython 3.8.1 is a marker of C13's domain whose printed tree is in C06's -/
+private def envPy : Env := ⟨[("python_version", "3.8"), ("python_full_version", "3.8.1")], some []⟩
+private def mPy : M := .leaf (.single (pvLeafOf .ge ">=" 3 8))
+
+example : envPy.extras = some [] ∧ EnvPy envPy 3 8 1 ∧ M.Good (FullInvLeaf envPy) mPy ∧
+    ∃ syn, M.toSyn mPy = some syn ∧ C06.SynInDomain envPy syn := by
+  refine ⟨rfl, ⟨by decide +kernel, by decide +kernel⟩, ?_, _, rfl, ?_⟩
+  · show FullInvLeaf envPy _
+    exact Or.inr (Or.inl ⟨.ge, ">=", 3, 8, by decide, rfl⟩)
+  · show C06.DomainLeaf envPy "python_version" ">=" _ false
+    have e : Version.relText [3, 8] = C06.relLit (3 :: [8]) := by decide +kernel
+    rw [show (pvLeafOf .ge ">=" 3 8).value = Version.relText [3, 8] from rfl, e]
+    exact C06.DomainLeaf.pv (E := envPy) .ge ">=" 3 [8] 3 [8] (by decide) (by decide +kernel)
+
+/-- **Requires-Dist is faithful on the domain, C13's hypothesis discharged**: for a non-optional table declaration
+whose resulting marker lies in C13's domain and prints to a tree of C06's domain, the line is `base ; str(marker)` and
+the PEP 508 reference gives that marker text exactly the value of the declared `markers`, `python` and `platform`
+conditions.  Remaining hypotheses: the leaf specification for `CompLeaf E` (C07's obligation on `_merge_single_markers`,
+as in `dependency_marker_faithful_validate`) and the domain conditions on the declared texts. -/
+theorem requiresDist_faithful_domain (S : LeafSpec (leafEval E) (CompLeaf E)) (D : Decl) (X Y Z : Nat)
+    (hE : EnvPy E X Y Z) {ex : List String} (hX : E.extras = some ex) (bM bPy bPl : Bool) (d : Dep)
+    (hM : declRef E D.markers = some bM) (hMa : MarkersAgree E D.markers) (hPy : PyDecl D.python X Y Z bPy)
+    (hPl : PlatformDecl E D.platform bPl) (hPa : PlatformAgree E D.platform) (h : packageDependency D = .ok d)
+    (hg : M.Good (FullInvLeaf E) d.marker) (syn : Syn) (hsyn : M.toSyn d.marker = some syn)
+    (hdom : C06.SynInDomain E syn) (base : String) (hb : d.basePep508Name = .ok base) (hi : d.inExtras = [])
+    (hne : d.marker.isEmpty = false) (hany : d.marker.isAny = false) (xs : Option (List (List (String × String))))
+    (hx : convertMarkersFor "extra" d.marker = .ok xs) :
+    ∃ t, d.marker.toStr = .ok t ∧ d.toPep508 = .ok (base ++ " ; " ++ t) ∧ refEval E t = some (bM && bPy && bPl) := by
+  obtain ⟨t, ht, _⟩ := C13.print_parse_full hX hE hg hsyn
+  refine ⟨t, ht, (requires_dist_line_shape d base hb hi hne).2 hany t xs ht hx, ?_⟩
+  rw [printFaithful_domain hX hE hg hsyn hdom t ht]
+  have hv := dependency_marker_faithful_validate S D X Y Z hE bM bPy bPl d hM hMa hPy hPl hPa h
+  rw [M.validate_eq_sem E d.marker (M.good_mono (fun l hl => fullInvLeaf_evaluable hX hE hl) d.marker hg)] at hv
+  injection hv with hv
+  rw [hv]
+
 /-! ## selection -/
 
 /-- **no declared non-optional dependency is dropped** unless it can never be selected: a non-optional declaration whose
@@ -165,6 +234,113 @@ check's corpus: the marker algebra is too large for kernel evaluation) -/
 example : (requiresDistLine { name := "foo", optional := true }).toOption = some none := by decide +kernel
 example : (requiresDistLine { name := "foo", optional := true, inExtras := ["Test_X"] }).toOption =
     some (some "foo ; extra == \"test-x\"") := by decide +kernel
+
+/-! ## `[project] dependencies` and `[project.optional-dependencies]` (PEP 621) -/
+
+open Poetry.Proj621 in
+/-- **no PEP 621 entry is dropped because of another entry**: every string of `[project] dependencies` /
+`[project.optional-dependencies]` that has a line of its own has that line in Requires-Dist, whatever else the table
+contains — in particular two entries for one distribution with different markers are both written -/
+theorem pep621_entry_kept (es : List Entry) (ls : List String) (h : Proj621.requiresDist es = .ok ls)
+    (e : Entry) (he : e ∈ es) (t : String) (ht : entryLine e = .ok (some t)) : t ∈ ls :=
+  Proj621.entry_kept es ls h e he t ht
+
+open Poetry.Proj621 in
+/-- **the lines are the entries' own lines, in table order and with multiplicity** -/
+theorem pep621_lines_eq (es : List Entry) (ls : List String) (h : Proj621.requiresDist es = .ok ls) :
+    ∃ os : List (Option String), es.mapM entryLine = .ok os ∧ ls = os.filterMap id :=
+  Proj621.requiresDist_eq es ls h
+
+open Poetry.Proj621 in
+/-- one answer per entry, one line per entry that has one: a repeated entry is repeated -/
+theorem pep621_lines_length (es : List Entry) (ls : List String) (h : Proj621.requiresDist es = .ok ls) :
+    ∃ os : List (Option String), es.mapM entryLine = .ok os ∧ os.length = es.length ∧
+      ls.length = (os.filter Option.isSome).length :=
+  Proj621.requiresDist_length es ls h
+
+open Poetry.Proj621 in
+/-- **an entry of `[project.optional-dependencies].x` is written iff its own marker is not empty**, as a member of the
+normalised extra `x` and with its own marker -/
+theorem pep621_optional_entry_line (text x : String) (d : Dep) (h : createFromPep508Top text = .ok d) :
+    ∃ d', entryDependency ⟨text, some x⟩ = .ok d' ∧ d'.marker = d.marker ∧ d'.inExtras = [canonName x] ∧
+      selected d' = !d.marker.isEmpty :=
+  Proj621.optional_entry_line text x d h
+
+open Poetry.Proj621 in
+/-- non-vacuity on abstract entries: two entries for one distribution with different lines keep both lines, in order
+(the parser is too large for kernel evaluation of concrete texts; the correspondence stream `gen621` runs them) -/
+example (e1 e2 : Entry) (t1 t2 : String) (h1 : entryLine e1 = .ok (some t1)) (h2 : entryLine e2 = .ok (some t2)) :
+    Proj621.requiresDist [e1, e2] = .ok [t1, t2] := by
+  simp [Proj621.requiresDist, h1, h2, bind, Except.bind, pure, Except.pure]
+
+/-- **an entry of `[project] dependencies` whose marker has no `extra` clause is mandatory and not a member of an
+extra**, hence written iff its marker is not empty.  (With an `extra` clause this is FALSE of code and model — see
+`pep621_extra_marker_counterexample`.) -/
+theorem pep621_plain_entry_selected (text : String) (d : Dep) (h : createFromPep508Top text = .ok d)
+    (hx : convertMarkersFor "extra" d.marker = .ok none) (hreq : ∀ req, Req.parseL (stripComment text.toList) = .ok req →
+      req.url = none) :
+    d.optional = false ∧ d.inExtras = [] ∧ selected d = !d.marker.isEmpty := by
+  have h' := (createFromPep508Top_ok_iff text d).mp h
+  unfold createFromPep508 createFromPep508L at h'
+  cases hp : Req.parseL (stripComment text.toList) with
+  | error e => simp [hp, bind, Except.bind] at h'
+  | ok req =>
+    have hurl := hreq req hp
+    simp only [hp, bind, Except.bind] at h'
+    unfold fromReq at h'
+    simp only [hurl, bind, Except.bind, pure, Except.pure] at h'
+    split at h'
+    · cases h'
+    · cases hm : mkRegistry req.name req.constraint req.extras with
+      | error e => simp [hm] at h'
+      | ok d0 =>
+        simp only [hm] at h'
+        have hd0 : d0.optional = false ∧ d0.inExtras = [] := by
+          simp only [mkRegistry, Spec.make, normalizeSourceUrl, truthy, mkDep, bind, Except.bind, pure, Except.pure,
+            Bool.false_and, Bool.false_eq_true, if_false] at hm
+          cases hs : req.constraint.toStr with
+          | error e => simp [hs] at hm
+          | ok s => simp only [hs] at hm; cases hm; exact ⟨rfl, rfl⟩
+        cases hmk : req.marker with
+        | none =>
+          simp only [hmk] at h'
+          cases h'
+          exact ⟨hd0.1, hd0.2, by simp [selected, hd0.1]⟩
+        | some m =>
+          simp only [hmk] at h'
+          have hmm := setMarker_marker d0 d m h'
+          rw [hmm] at hx
+          have hopt := setMarker_keeps_mandatory d0 d m h' hx
+          have hin : d.inExtras = d0.inExtras := by
+            unfold Dep.setMarker at h'
+            simp only [bind, Except.bind, pure, Except.pure, hx] at h'
+            cases h2 : convertMarkersFor "python_version" m with
+            | error e => simp [h2] at h'
+            | ok py =>
+              simp only [h2] at h'
+              cases py <;> simp only [] at h' <;> (repeat' split at h') <;> first | (cases h'; rfl) | (cases h')
+          refine ⟨by rw [hopt, hd0.1], by rw [hin, hd0.2], ?_⟩
+          simp [selected, hopt, hd0.1]
+
+/-- **where the code drops a declared dependency** (candidate defect, replayed on poetry-core: `[project] dependencies =
+["colorama>=0.4 ; extra != 'x'"]` gives no Requires-Dist line): the `marker` setter makes a dependency optional as soon
+as its marker mentions `extra`, but records membership only for `==` clauses; a marker whose `extra` clauses are all
+`!=` leaves it optional and member of no extra, and `Metadata.from_package` skips it -/
+theorem pep621_extra_marker_counterexample (d d' : Dep) (m : M) (groups : List (List (String × String)))
+    (h : d.setMarker m = .ok d') (hx : convertMarkersFor "extra" m = .ok (some groups))
+    (hnone : inExtrasOf groups = []) (hd : d.inExtras = []) :
+    d'.optional = true ∧ d'.inExtras = [] ∧ selected d' = false := by
+  unfold Dep.setMarker at h
+  simp only [bind, Except.bind, pure, Except.pure, hx] at h
+  cases h2 : convertMarkersFor "python_version" m with
+  | error e => simp [h2] at h
+  | ok py =>
+    simp only [h2] at h
+    cases py <;> simp only [] at h <;> (repeat' split at h) <;>
+      first | (cases h; simp [selected, hd, hnone]) | (cases h)
+
+/-- the groups `convert_markers` reports for `extra != "x"` record no membership -/
+example : inExtrasOf [[("!=", "x")]] = [] := by decide
 
 /-! ## Provides-Extra -/
 
